@@ -39,6 +39,7 @@ import (
 	"github.com/tikv/client-go/v2/internal/apicodec"
 	"github.com/tikv/client-go/v2/internal/mockstore/mocktikv"
 	"github.com/tikv/client-go/v2/kv"
+	"github.com/tikv/client-go/v2/oracle"
 	"github.com/tikv/client-go/v2/tikvrpc"
 	"github.com/tikv/client-go/v2/util"
 	"github.com/tikv/client-go/v2/util/codec"
@@ -174,7 +175,13 @@ func c09Dump(c *RegionCache) string {
 			}
 		}
 	}
-	return j(ents) + "\t" + j(regs) + "\t" + j(lat) + "\t" + j(se)
+	var tomb []string
+	for id := uint64(1); id < 64; id++ {
+		if st, ok := c.stores.get(id); ok && st.getResolveState() == tombstone {
+			tomb = append(tomb, fmt.Sprint(id))
+		}
+	}
+	return j(ents) + "\t" + j(regs) + "\t" + j(lat) + "\t" + j(se) + "\t" + j(tomb)
 }
 
 // ---------------------------------------------------------------- PD wrapper (stale / reordered answers)
@@ -425,6 +432,10 @@ func c09NewEnv(w *bufio.Writer, seed int64, nops int, txn bool) *c09Env {
 		e.cache = c09NewCache(e.pdw)
 	}
 	e.rpc = mocktikv.NewRPCClient(e.cluster, c09Mvcc, nil)
+	for _, sid := range e.stores { // every store is resolved from the start: later state changes come from reResolve only
+		st := e.cache.stores.getOrInsertDefault(sid)
+		_, _ = st.initResolve(e.bo(), e.cache.stores)
+	}
 	return e
 }
 func (e *c09Env) halted() bool { return e.nops >= 0 && e.opIdx >= e.nops }
@@ -942,6 +953,32 @@ func (e *c09Env) opUBuckets(v RegionVerID, req, latest uint64) {
 		return "ok"
 	})
 }
+// the periodic store check (checkAndResolve over every resolved store): Store.reResolve notices stores PD reports removed
+func (e *c09Env) opReResolve() {
+	var ss []string
+	for _, sid := range e.stores {
+		st, ok := e.cache.stores.get(sid)
+		if !ok || st.getResolveState() == tombstone || st.getResolveState() == unresolved {
+			continue
+		}
+		removed := 0
+		if m := e.cluster.GetStore(sid); m == nil || m.GetState() == metapb.StoreState_Tombstone {
+			removed = 1
+		}
+		ss = append(ss, fmt.Sprintf("%d:%d", sid, removed))
+	}
+	arg := "_"
+	if len(ss) > 0 {
+		arg = strings.Join(ss, "/")
+	}
+	e.op("reresolve", []string{arg}, func() string {
+		e.cache.checkAndResolve(nil, func(s *Store) bool {
+			st := s.getResolveState()
+			return st != unresolved && st != tombstone
+		})
+		return "ok"
+	})
+}
 func (e *c09Env) opCtx(v RegionVerID) *RPCContext {
 	var out *RPCContext
 	e.op("ctx", []string{c09Ver(v)}, func() string {
@@ -1089,8 +1126,10 @@ func (e *c09Env) cacheOp() {
 	case x < 65:
 		bits := []int32{needReloadOnAccess, needDelayedReloadPending, needDelayedReloadReady}
 		e.opFlag(r, bits[e.rng.Intn(3)])
-	case x < 72:
+	case x < 70:
 		e.opGC()
+	case x < 72:
+		e.opReResolve()
 	case x < 74:
 		e.opClear()
 	case x < 77:
@@ -1184,6 +1223,93 @@ func (e *c09Env) stuck() {
 	}
 	e.x("stuck end")
 }
+// decommission: a store that leads a warm cached region is drained (leaders moved, peers removed) and becomes a tombstone
+// in PD while the region is idle; the periodic store check notices it. Then real requests (LocateKey + RegionRequestSender)
+// must be served by the current leader within a few rounds. The sender changes the cache outside the model: last phase.
+func (e *c09Env) decommission() {
+	if e.halted() || len(e.stopped) > 0 {
+		return
+	}
+	var victim uint64
+	var key []byte
+	for _, r := range e.entries() {
+		if !r.isValid() {
+			continue
+		}
+		_, p, _, _ := r.WorkStorePeer(r.getStore())
+		// the cached description must still be the current one (an idle warm region)
+		for _, t := range e.regions() {
+			if t.meta.Id == r.GetID() && t.meta.RegionEpoch.Version == r.VerID().ver && t.meta.RegionEpoch.ConfVer == r.VerID().confVer && len(t.meta.Peers) >= 2 {
+				victim, key = p.StoreId, append(append([]byte{}, r.StartKey()...), 1)
+			}
+		}
+		if victim != 0 {
+			break
+		}
+	}
+	if victim == 0 {
+		return
+	}
+	for _, t := range e.regions() {
+		for _, p := range t.meta.Peers {
+			if p.StoreId != victim {
+				continue
+			}
+			if len(t.meta.Peers) < 2 {
+				return // cannot drain this store
+			}
+		}
+	}
+	for _, t := range e.regions() {
+		for _, p := range t.meta.Peers {
+			if p.StoreId != victim {
+				continue
+			}
+			if t.leader.GetId() == p.Id {
+				for _, q := range t.meta.Peers {
+					if q.StoreId != victim {
+						e.cluster.ChangeLeader(t.meta.Id, q.Id)
+						break
+					}
+				}
+			}
+			e.cluster.RemovePeer(t.meta.Id, p.Id)
+		}
+	}
+	e.cluster.MarkTombstone(victim)
+	e.pdw.snaps = nil // PD no longer knows descriptions with peers on the removed store
+	e.topoDone("decommission store %d", victim)
+	e.opReResolve()
+	e.x("sender begin\t%s", c09hx(key))
+	sender := NewRegionRequestSender(e.cache, e.rpc, oracle.NoopReadTSValidator{})
+	served, rounds, store := false, 0, uint64(0)
+	func() {
+		defer func() {
+			if r := recover(); r != nil {
+				e.x("sender panic %v", r)
+			}
+		}()
+		for rounds < 10 && !served {
+			rounds++
+			bo := retry.NewBackofferWithVars(context.Background(), 2000, nil)
+			loc, err := e.cache.LocateKey(bo, key)
+			if err != nil {
+				continue
+			}
+			req := tikvrpc.NewRequest(tikvrpc.CmdRawGet, &kvrpcpb.RawGetRequest{Key: key}, kvrpcpb.Context{})
+			resp, rpcCtx, _, err := sender.SendReqCtx(bo, req, loc.Region, time.Second, tikvrpc.TiKV)
+			if err != nil || resp == nil {
+				continue
+			}
+			if rerr, _ := resp.GetRegionError(); rerr != nil {
+				continue
+			}
+			served, store = true, rpcCtx.Store.StoreID()
+		}
+	}()
+	e.x("sender end\t%s\t%d\t%v\t%d", c09hx(key), rounds, served, store)
+	e.nops = e.opIdx // nothing after this is compared with the model
+}
 func (e *c09Env) converge(nkeys int) {
 	if e.halted() {
 		return
@@ -1236,6 +1362,9 @@ func (e *c09Env) seqRandom(nsteps int, staleP float64, realistic bool) {
 		e.stuck()
 	}
 	e.converge(2)
+	if e.rng.Intn(3) == 0 {
+		e.decommission()
+	}
 }
 
 // directed: cache miss in the middle + cached last region whose end key is unbounded
